@@ -189,7 +189,7 @@ class carnahan_starling_eos(equation_of_state):
             raise EosZeroDensityError("Error: rho = 0. Please do not break math and divide by zero.")
         return P/(self.Z(self.eta(rho))*rho*(self.gamma -1))
 
-    def de_drho(self, P, rho):
+    def de_drho(self, rho, P):
         if(rho == 0.0):
             raise EosZeroDensityError("Error: rho = 0. Please do not break math and divide by zero.")
         return -(self.dZ_deta(self.eta(rho))*self.deta_drho(rho)*rho + self.Z(self.eta(rho)))/((self.gamma -1)*(self.Z(self.eta(rho))**2*rho**2))
